@@ -58,7 +58,7 @@ impl FitToType for i64 {
 impl FitToType for f32 {
     fn fit_to_type(self) -> Variant {
         let diff = self - self.round();
-        let has_fraction = diff.abs() > 0.0001;
+        let has_fraction = diff != 0.0;
         if has_fraction {
             Variant::VSingle(self)
         } else {
@@ -70,7 +70,7 @@ impl FitToType for f32 {
 impl FitToType for f64 {
     fn fit_to_type(self) -> Variant {
         let diff = self - self.round();
-        let has_fraction = diff.abs() > 0.0001;
+        let has_fraction = diff != 0.0;
         if has_fraction {
             Variant::VDouble(self)
         } else {
